@@ -606,6 +606,11 @@ def check_C12(chk, tier, seed):
             toks.append(f"T {hx(r.choice([0, 1, 1000]))}")            # shifts where the cooperative budget runs out
         toks.append(f"BB {r.choice(['eof', 'reset', 'garbage'])} {r.choice([70, 130, 200])} {hx(0x1000)} {k % 8}")
         cases.append((line(toks), toks, "burst"))
+    # the same with several hundred requests outstanding when the reader stops (releasing them takes the reader a while - in
+    # batches, perhaps): a send that slips in meanwhile must still fail or hand out a future that fails
+    for k, (nout, kind) in enumerate([(260, "garbage"), (270, "eof"), (258, "reset")] if tier == "quick" else [(260, "garbage"), (270, "eof"), (258, "reset"), (290, "garbage"), (257, "eof"), (280, "unknownavp")]):
+        toks = [f"RN {nout} {hx(0x2000)}", f"BB {kind} 130 {hx(0x1000)} {k % 8}"]
+        cases.append((line(toks), toks, "burst"))
     lines = [c[0] for c in cases]
     # the model's state is a chain of function updates over unary numbers: histories with more than a few hundred requests
     # are judged by the property predicate alone (no model run)
